@@ -195,6 +195,9 @@ func (r *run) newSource() *node {
 	}
 	r.add(n)
 	k := t.Plan(6)
+	if t.PlanBool(20) {
+		k = 6 + t.Plan(8) // longer than the forwarders' buffer of 5
+	}
 	for i := 0; i < k; i++ {
 		it := pitem{name: fmt.Sprintf("s%d.%d", n.id, i)}
 		if n.kind == kPipe && t.PlanBool(12) {
